@@ -69,6 +69,74 @@ CHECKS.update({
         ref="DESIGN.md section 4 C14"),
 })
 
+CHECKS.update({
+    "C01": dict(
+        technique="reaching-definition / control-dependence shape analysis of the child-resolution loop, abstract interpretation over 'record may have patches' for the deletion and substitution markers, marker constant agreement, interprocedural guard dominance, no-raw-access rule for move/copy",
+        text="Decides five structural necessary conditions of overlay transparency on every path of overlay.py (each names the concrete failing history if violated): sticky-virtual child resolution, deletion markers on every patched delete, substitution markers / stale marker removal on create, writer/reader marker agreement, guard discipline, move/copy through overlay primitives only.",
+        note="Not decided: equality of the overlay view with the reference tree over all histories and patch placements (run-time values).",
+        ref="DESIGN.md section 4 C01"),
+    "C03": dict(
+        technique="CFG order rule (sort before positional access), finite-domain partial evaluation of the constructor over 6 open modes x argument kind x disk situation against a contract table, character-class algebra on the repo's regex constants for file-name discovery, codec agreement between user-block writer and reader",
+        text="Decides order independence of the file list, the complete open-mode dispatch table (27 cells, exhaustively), unambiguity of record-name discovery for all names (class disjointness, not samples), close/discard discipline and the user-block codec.",
+        note="Not decided: the reopened view equals the previous view (run-time equality).",
+        ref="DESIGN.md section 4 C03"),
+    "C04": dict(
+        technique="DNF normalisation of the raising predicates of _check_ublock against a required table + un-bypassability (CFG must-pass), index-coverage and must-pass rules for _open, super()-delegation rules, raw-bytes provenance of the manifest hash",
+        text="Decides that each validation the property relies on is present with the exact predicate, raises, cannot be bypassed by an early return and lies on every path to a successful open (base, every middle container, newest, distinct uuids, manifest existence + raw-byte hash).",
+        note="Not decided: that every valid set opens (completeness), collision resistance, behaviour per corrupted byte at run time.",
+        ref="DESIGN.md section 4 C04"),
+    "C05": dict(
+        technique="DOM (refusals before effects), FRAME (no store to the source record), def-use shape of the merged user block + ORDER (close < hash < save), copy-coverage shape rules, user-block codec agreement",
+        text="Decides that merge refuses uncommitted/stub sets before any effect, never mutates the still-open source, labels the merged container as the newest source block with the oldest prev_patch and the hash of the closed payload, and that the copy covers root attributes, all entities, both kinds, attributes and full values.",
+        note="Not decided: merged tree == overlay view; follow-up patch behaviour at run time.",
+        ref="DESIGN.md section 4 C05"),
+    "C06": dict(
+        technique="MUST/ORDER pairing rules on the CFG (register/unregister, destroy-before-delete, relink-after-move/copy), parameter-threading rule for the _unlink switch, OWN rule for the reserved namespace via def-use slicing of written paths, paired-cleanup rules, loader/writer table agreement incl. a use-after-loop rule",
+        text="Decides the pairing and ownership conditions without which TOC and metadata cannot stay in sync: every store registers, every delete unregisters (switch threaded), node operations carry their metadata, only bookkeeping code writes reserved paths, emptied bookkeeping groups are removed, and the index rebuilt on open is populated per stored entry like the incremental one.",
+        note="Not decided: the one-to-one invariant over all reachable container states on both drivers.",
+        ref="DESIGN.md section 4 C06"),
+    "C07": dict(
+        technique="key-kind typing of a dict field from annotations (AGREE), CFG order rules for the set discipline, role derivation (requested vs stored) at every PluginRef.supports call against a frozen table, sibling agreement of the query membership tests, fresh-view rule",
+        text="Decides that the per-node object index is keyed consistently, that set validates/refuses in order and stores the validated bytes, that version compatibility is tested in the right direction at every registry lookup, and that container queries test start node and descendants identically and traverse only below the start node.",
+        note="Not decided: exactness of query result sets and equality of returned objects (run time).",
+        ref="DESIGN.md section 4 C07"),
+    "C09": dict(
+        technique="layering rule (every attribute used on a raw-role expression is an H5*Like protocol member; raw roles tracked through locals, loops and callbacks), EXHAUST + arity check of the IH5 classes against the protocols, keyword-set agreement between container call sites and IH5 callees, closed enum dispatch; plus the C01 overlay rules",
+        text="Decides the mechanism that makes driver-independence possible: the container uses raw objects only through the protocols, IH5 implements every member with a compatible signature and consumes exactly the keywords passed, driver dispatch is total; and re-checks the overlay's structural conditions (C01) because IH5 can only mimic h5py if the overlay is transparent.",
+        note="Not decided: lock-step equality of the two executions over all histories.",
+        ref="DESIGN.md section 4 C09"),
+    "C10": dict(
+        technique="def-use rule (only h5py.Empty placeholders flow into a stub), per-iteration MUST rule, OWN rule for the stub flag, shape rules for stub identity, ORDER/AGREE rules for manifest hash vs. saved object",
+        text="Decides that stubs carry no data but every node and attribute name of the skeleton, that a stub has the identity of the real newest container minus prev_patch, that only create_stub can mark a stub, and that the manifest written at a successful commit is exactly the object whose bytes were hashed into the user block (extensions inherited before hashing).",
+        note="Not decided: stub-patch == direct-patch on the real record (run time).",
+        ref="DESIGN.md section 4 C10"),
+    "C13": dict(
+        technique="call-graph/MUST wiring rules for the load-time override check, static re-check of all shipped schema classes with a structural subtype relation on annotation ASTs (alias expansion, repo class hierarchy), never-accepts-on-its-own rule for the subtype wrapper",
+        text="Decides that the override check is wired into plugin loading for the whole class chain, that extras policy cannot be loosened, re-derives the check for the 36 shipped schemas from source (the package cannot be imported here), and that the subtype wrapper can only be stricter than the third-party test.",
+        note="Not decided: soundness of runtype.is_subtype and acceptance over all values.",
+        ref="DESIGN.md section 4 C13"),
+    "C17": dict(
+        technique="guard dominance for caller-supplied values (DOM), def-use shape of the byte payload and the two-case wrapper (BLIND on the wrapped value), provenance of harvested size/hash incl. a no-memoisation rule",
+        text="Decides that the deletion-marker guard precedes every store of a caller-supplied value in the overlay, that file bytes flow untransformed into the dataset through a wrapper decided by len(bytes) only, that copies use full-value reads, and that harvested size/hash are computed from the file on each call.",
+        note="Not decided: byte fidelity through numpy/HDF5 for all byte strings on both drivers (run time).",
+        ref="DESIGN.md section 4 C17"),
+    "C18": dict(
+        technique="syntax-directed emission-order analysis (loop unrolling over literal lists), finite-domain partial evaluation of compare over {None,str,dict}^2 with role tables, identity-test-only rule for status",
+        text="Decides the safe ordering of the node listing for all diffs (removed < modified < self < added, sorted, recursive, no shortcut return), exhaustiveness and role-correctness of the 3x3 case analysis, and the status mapping.",
+        note="Not decided: reported path set == symmetric difference for all tree pairs (run time).",
+        ref="DESIGN.md section 4 C18"),
+    "C19": dict(
+        technique="CFG loop-exit / must-update rules for the chunk loop, shadowed-branch rule with an external model of pathlib (is_file follows links), dominance of the outside-link refusal, resolve-vs-textual normalisation rule, purity rule (no stat / memoisation on the hash chain)",
+        text="Decides that every byte is hashed regardless of chunking, that symlinks are recognised before files/directories, that out-of-directory links raise and containment is tested on resolved paths, and that the tree is built from content only.",
+        note="Not decided: injectivity / collision resistance; equality of trees for equal directories at run time.",
+        ref="DESIGN.md section 4 C19"),
+    "C20": dict(
+        technique="MUST/ORDER rules for store-on-first-use with exact (name, version) lookups, cooperating-sites rule (provider test vs. cleanup), loader/writer agreement, TOTAL + dropped-value rule for accessors, shape rules for the JSON Schema export",
+        text="Decides that JSON Schema, parent chain and a providing package are stored before the first link of a schema, that a reopened container rebuilds the same tables per entry, that accessors return what is stored, and that constants/parser info are exported.",
+        note="Not decided: stored objects validate against the embedded JSON Schema; plugin-side truth at run time.",
+        ref="DESIGN.md section 4 C20"),
+})
+
 REASON_PENDING = "check not built yet (build in progress; see DESIGN.md section 4 for the planned static rules)"
 NOT_APPLICABLE = {}
 
